@@ -181,6 +181,8 @@ func (e *Exec) bytesEq(a, b *Term) *Term {
 	body := Implies(And(SGe(k, bv64zero), SLt(k, SlLen(a))), Eq(Select(aa, BVAdd(SlOff(a), k)), Select(ba, BVAdd(SlOff(b), k))))
 	r := e.vc.Fresh("beq", SBool)
 	e.vc.Assume(True, Eq(r, And(Eq(SlLen(a), SlLen(b)), Forall([][2]string{{"k", BV(64)}}, body))))
+	// the same fact on the sequence abstraction (Seq values are equal iff they have the same bytes)
+	e.vc.Assume(True, Eq(r, Eq(App("bseq.of", "BSeq", aa, SlOff(a), SlLen(a)), App("bseq.of", "BSeq", ba, SlOff(b), SlLen(b)))))
 	return r
 }
 
